@@ -37,7 +37,9 @@ type Program struct {
 	LoadS    float64
 	Patterns []string
 
-	roots map[string]*ssa.Function // ABCI role -> closure
+	roots            map[string]*ssa.Function // ABCI role -> closure
+	regTypes         map[string]bool
+	buildingHandlers bool
 }
 
 // undecided is raised (panic) by infrastructure code when the analysis cannot be run.
@@ -322,7 +324,7 @@ func (p *Program) Reach(roots ...*ssa.Function) (map[*ssa.Function]bool, map[*ss
 		f := q[0]
 		q = q[1:]
 		for _, c := range p.out[f] {
-			if seen[c] || !inRepo(c) || isStopNode(c) {
+			if seen[c] || !inRepo(c) || isStopNode(c) || p.unregisteredHandler(c) {
 				continue
 			}
 			seen[c] = true
@@ -331,6 +333,43 @@ func (p *Program) Reach(roots ...*ssa.Function) (map[*ssa.Function]bool, map[*ss
 		}
 	}
 	return seen, parent
+}
+
+// unregisteredHandler: c is a method of an action.Tx implementer that the node never registers on a router
+// (VTA resolves router dispatch to every implementer in the program, e.g. the disabled BTC handlers).
+func (p *Program) unregisteredHandler(c *ssa.Function) bool {
+	if c.Signature.Recv() == nil {
+		return false
+	}
+	switch c.Name() {
+	case "Validate", "ProcessCheck", "ProcessDeliver", "ProcessFee":
+	default:
+		return false
+	}
+	if txIface == nil {
+		p.initTxIface()
+	}
+	rt := c.Signature.Recv().Type()
+	if !implementsTx(rt) {
+		return false
+	}
+	if p.buildingHandlers {
+		return false
+	}
+	if p.regTypes == nil {
+		p.buildingHandlers = true
+		defer func() { p.buildingHandlers = false }()
+		p.regTypes = map[string]bool{}
+		p.regTypes["action.unknownTx"] = true
+		for _, h := range p.Handlers() {
+			p.regTypes[h.Name] = true
+		}
+	}
+	n := namedOf(rt)
+	if n == nil {
+		return false
+	}
+	return !p.regTypes[tname(n)]
 }
 
 func callPath(parent map[*ssa.Function]*ssa.Function, f *ssa.Function) []string {
